@@ -662,7 +662,7 @@ pub async fn wipeout(w: &mut World, m: &mut Mon, r: &mut R, g: usize, lender: us
         let k2 = w.auth_of(a2);
         let i = w.ix_deposit(a2, ca, k2.pubkey(), w.ta_of(a2, ca), 1u64 << 40, None);
         let _ = w.exec(m, &[i], &[&k2]).await;
-        let want = dep / 20;
+        let want = dep / 1000;
         let i = w.ix_borrow(a2, db, k2.pubkey(), w.ta_of(a2, db), want);
         let o = w.exec(m, &[i], &[&k2]).await;
         m.r.count(if o.ok() { "scen.wipeout_second_borrower" } else { "scen.wipeout_second_borrower_failed" });
@@ -689,11 +689,15 @@ pub async fn wipeout(w: &mut World, m: &mut Mon, r: &mut R, g: usize, lender: us
     // time passes: debt grows faster than deposits (fees), then the collateral dies
     w.chain.advance(pick(r, &[365i64 * 86_400, 3 * 365 * 86_400]));
     w.refresh_oracles();
+    let saved_ca = save_price(w, ca);
     scale_price_any(w, ca, 1e-12).await;
     let admin = clone_kp(&w.groups[g].admin);
     let i = w.ix_bankruptcy(a, db, admin.pubkey());
     let o = w.exec(m, &[i], &[&admin]).await;
-    scale_price_any(w, ca, 1e12).await;
+    match saved_ca {
+        SavedPx::None => scale_price_any(w, ca, 1e12).await,
+        sp => restore_price(w, ca, sp),
+    }
     if !o.ok() {
         m.r.count("scen.wipeout_bankruptcy_rejected");
         return None;
